@@ -28,6 +28,7 @@ def setup(T, NODE, CTX, variant, depth=1, prefix="C03", default=dataclasses.MISS
     S.prefix = prefix
     from vf import tinfo
     S.list_like = tinfo.info(T).kind in ("seq", "tuple_var", "tuple_fixed", "namedtuple", "chainmap")
+    S.struct = needs_nested(T)
     if variant == "codec":
         S.decode = BasicDecoder(T).decode
         S.RT = T
@@ -44,6 +45,29 @@ def setup(T, NODE, CTX, variant, depth=1, prefix="C03", default=dataclasses.MISS
         S.RT = W
         S.wrap = lambda d: {"x": d}
     return S
+
+
+def needs_nested(T):
+    """a dataclass root with a required field whose type is itself a dataclass / NamedTuple / TypedDict (or a generic
+    parameter bound to one): depth-1 inputs cannot satisfy it"""
+    from vf import tinfo
+
+    try:
+        ti = tinfo.info(T)
+        if ti.kind != "dataclass":
+            return False
+        for n, ft, f in tinfo.dc_fields(ti.type):
+            if f.default is not dataclasses.MISSING or f.default_factory is not dataclasses.MISSING:
+                continue
+            try:
+                k = tinfo.info(ft, ti.extra).kind
+            except Exception:
+                return True
+            if k in ("dataclass", "namedtuple", "typeddict", "enum"):
+                return True
+    except Exception:
+        return False
+    return False
 
 
 def main(S, env):
@@ -78,7 +102,14 @@ def twin(S, env):
         return not (env[S.node.tag] == 1 and env[S.node.n] == len(S.node.items) and main(S, env))
     d = S.wrap(S.node.make(env))
     st_r, r = call(S.decode, d)
-    return not (st_r == "ok" and main(S, env))
+    if st_r == "ok":
+        return not main(S, env)
+    if S.struct and env[S.node.tag] == 2 and all(env[f] for f in S.node.flags):
+        # structured schemas (a nested dataclass / NamedTuple / TypedDict is required): no input of depth 1 can be accepted, so
+        # the witness is a dict-tagged input with every candidate key present that went through both decoders and the
+        # comparison of their (rejecting) outcomes; accepted deep inputs are the subject of the *_deep harnesses
+        return not main(S, env)
+    return True
 
 
 def own_name_error(exc):
